@@ -12,3 +12,16 @@ ENDPOINT_ASSUMPTIONS = [
 ST = 'acmed/src/storage.rs'
 FILES_EXIST_CUT = {'file': ST, 'fn': 'certificate_files_exists', 'body': '\tcrate::verif_env::env().files_exist'}
 GET_CERT_CUT = {'file': ST, 'fn': 'get_certificate', 'body': '\tlet e = crate::verif_env::env();\n\tif e.cert_unreadable { return Err("unreadable".into()); }\n\tOk(X509Certificate::from_pem(&e.cert_file[..e.cert_file_len])?)'}
+
+APA = 'acmed/src/acme_proto/account.rs'
+def _acc_model(kind, on_ok):
+    return ('\tlet e = crate::verif_env::env();\n'
+            '\tkani::assume(e.acc_ev_n < 4);\n'
+            '\te.acc_ev[e.acc_ev_n] = %d;\n'
+            '\te.acc_ev_key_ok[e.acc_ev_n] = account.current_key.key.inner_key.kid == e.ca_key_kid;\n'
+            '\te.acc_ev_n += 1;\n'
+            '\tif kani::any() { e.acc_failed = true; return Err("request failed".into()); }\n'
+            + on_ok + '\tOk(())') % kind
+REGISTER_CUT = {'file': APA, 'fn': 'register_account', 'body': _acc_model(1, '\te.ca_key_kid = account.current_key.key.inner_key.kid;\n\taccount.set_account_url(&endpoint.name, "u")?;\n\taccount.update_key_hash(&endpoint.name)?;\n\taccount.update_contacts_hash(&endpoint.name)?;\n\taccount.update_external_account_hash(&endpoint.name)?;\n')}
+CONTACTS_CUT = {'file': APA, 'fn': 'update_account_contacts', 'body': _acc_model(2, '\taccount.update_contacts_hash(&endpoint.name)?;\n')}
+KEY_CUT = {'file': APA, 'fn': 'update_account_key', 'body': _acc_model(3, '\te.ca_key_kid = account.current_key.key.inner_key.kid;\n\taccount.update_key_hash(&endpoint.name)?;\n')}
